@@ -6,7 +6,7 @@ fail=0
 for d in seeded/*/; do
   id=$(basename "$d")
   prop=$(python3 -c "import json;print(json.load(open('$d/meta.json'))['property'])")
-  want=$(python3 -c "import json;print(json.load(open('$d/meta.json'))['now']['exit'])")   # 0 only for changes recorded as not decidable
+  want=$(python3 -c "import json;print(json.load(open('$d/meta.json')).get('now', {}).get('exit', 1))")   # 0 only for changes recorded as not decidable
   out=$(./selftest/try_patch.sh "$id" "$PWD/$d/patch.diff" - "$prop")
   echo "$out"
   case "$out" in *"$prop:rc=$want"*) ;; *) fail=1;; esac
